@@ -1,1 +1,2 @@
 pub mod ans;
+pub mod range;
